@@ -15,6 +15,7 @@ import (
 	"strconv"
 	"strings"
 
+	"golang.org/x/tools/go/packages"
 	"golang.org/x/tools/go/ssa"
 )
 
@@ -248,7 +249,7 @@ func ruleBCE(c *Ctx, u *Universe, rule string, rels []string, fileFilter func(st
 		return
 	}
 	used := map[string]bool{}
-	nSites := 0
+	nSites, nProved := 0, 0
 	perKey := map[string]int{}
 	sort.Slice(sites, func(i, j int) bool {
 		if sites[i].file != sites[j].file {
@@ -259,10 +260,17 @@ func ruleBCE(c *Ctx, u *Universe, rule string, rels []string, fileFilter func(st
 		}
 		return sites[i].col < sites[j].col
 	})
+	type siteRec struct {
+		s    bceSite
+		rel  string
+		p    *packages.Package
+		node ast.Expr
+		fd   *ast.FuncDecl
+		key  string
+	}
+	var recs []siteRec
+	present := map[string]bool{}
 	for _, s := range sites {
-		if fileFilter != nil && !fileFilter(s.file) {
-			continue
-		}
 		rel := s.file[:strings.LastIndex(s.file, "/")]
 		p := u.Pkgs[rel]
 		if p == nil {
@@ -296,16 +304,62 @@ func ruleBCE(c *Ctx, u *Universe, rule string, rels []string, fileFilter func(st
 			}
 		}
 		if node == nil || fd == nil {
-			R.undecided(rule, fmt.Sprintf("%s:%d:%d", s.file, s.line, s.col), fmt.Sprintf("%s:%d", s.file, s.line), "compiler reports an unproven bounds check that could not be mapped to an index/slice expression")
+			if fileFilter == nil || fileFilter(s.file) {
+				R.undecided(rule, fmt.Sprintf("%s:%d:%d", s.file, s.line, s.col), fmt.Sprintf("%s:%d", s.file, s.line), "compiler reports an unproven bounds check that could not be mapped to an index/slice expression")
+			}
 			continue
 		}
-		nSites++
-		base := rel + "." + declName(fd) + ":" + types.ExprString(node)
+		// the key names the function and the expression with every local variable replaced by its type, so
+		// renaming a local (or the receiver) does not change it
+		base := rel + "." + declName(fd) + ":" + normExpr(p.TypesInfo, node)
+		if os.Getenv("ZNCHECK_BCE_MIGRATE") != "" {
+			fmt.Printf("BCEKEY\t%s\t%s\n", rel+"."+declName(fd)+":"+types.ExprString(node), base)
+		}
 		perKey[base]++
 		key := base
 		if perKey[base] > 1 {
 			key = fmt.Sprintf("%s#%d", base, perKey[base])
 		}
+		present[key] = true
+		recs = append(recs, siteRec{s, rel, p, node, fd, key})
+	}
+	// a reviewed entry whose function no longer contains the expression may be claimed once by a site with the
+	// identical normalised expression in the same package (the code was moved into / out of a helper)
+	exprOf := func(k string) string {
+		e := k[strings.Index(k, ":")+1:]
+		if i := strings.LastIndex(e, "#"); i > 0 {
+			e = e[:i]
+		}
+		return e
+	}
+	pkgOf := func(k string) string {
+		fn := k[:strings.Index(k, ":")]
+		for _, rel := range corePkgs {
+			if strings.HasPrefix(fn, rel+".") && !strings.Contains(fn[len(rel)+1:], "/") {
+				return rel
+			}
+		}
+		return ""
+	}
+	claimMoved := func(rel, key string) (string, bceEntry, bool) {
+		var cands []string
+		for k := range table {
+			if !present[k] && !used[k] && pkgOf(k) == rel && exprOf(k) == exprOf(key) {
+				cands = append(cands, k)
+			}
+		}
+		sort.Strings(cands)
+		if len(cands) == 0 {
+			return "", bceEntry{}, false
+		}
+		return cands[0], table[cands[0]], true
+	}
+	for _, rc := range recs {
+		s, rel, node, fd, key := rc.s, rc.rel, rc.node, rc.fd, rc.key
+		if fileFilter != nil && !fileFilter(s.file) {
+			continue
+		}
+		nSites++
 		pos := fmt.Sprintf("%s:%d", s.file, s.line)
 		// (V) validator discharge: P[const] dominated by a successful Validate*Params(P, …) guaranteeing the length
 		if why := validatorDischarge(u, rel, fd, node); why != "" {
@@ -315,6 +369,23 @@ func ruleBCE(c *Ctx, u *Universe, rule string, rels []string, fileFilter func(st
 		if why := guardDischarge(u, rel, fd, node); why != "" {
 			R.hold(rule, key, pos, "discharged: "+why)
 			continue
+		}
+		if f := u.ssaFunc(rel, declName(fd)); f != nil {
+			var lb token.Pos
+			switch x := node.(type) {
+			case *ast.IndexExpr:
+				lb = x.Lbrack
+			case *ast.SliceExpr:
+				lb = x.Lbrack
+			}
+			if why := proveSite(f, lb, node); why != "" {
+				if _, listed := table[key]; listed {
+					used[key] = true
+				}
+				R.hold(rule, key, pos, "discharged: "+why)
+				nProved++
+				continue
+			}
 		}
 		if e, ok := table[key]; ok {
 			used[key] = true
@@ -327,9 +398,21 @@ func ruleBCE(c *Ctx, u *Universe, rule string, rels []string, fileFilter func(st
 			R.hold(rule, key, pos, "reviewed: "+e.Reason)
 			continue
 		}
+		if from, e, ok := claimMoved(rel, key); ok {
+			used[from] = true
+			if e.Side != "" {
+				if msg := bceSideCondition(u, e.Side); msg != "" {
+					R.viol(rule, key, pos, "the invariant that justifies this index no longer holds: "+msg)
+					continue
+				}
+			}
+			R.hold(rule, key, pos, "reviewed (entry "+from+", whose function no longer contains this expression: moved): "+e.Reason)
+			continue
+		}
 		R.viol(rule, key, pos, "index/slice expression whose bounds the compiler cannot prove and that is neither covered by a parameter validator nor in the reviewed table (possible Go runtime panic: index out of range)")
 	}
 	R.count("unproven_bounds_checks", nSites)
+	R.count("bounds_proved_by_own_prover", nProved)
 	for k := range table {
 		if !used[k] && fileFilter == nil {
 			R.note("table entry %q matches no unproven bounds check any more (stale)", k)
@@ -827,7 +910,7 @@ func checkC10(c *Ctx) {
 	scope := []string{"pkg/common", "pkg/exec", "pkg/io", "pkg/runtime", "pkg/value", "stdlib/file", "stdlib/json", "pkg/syntax", "pkg/syntax/zh"}
 	// the front end's index sites belong to C05; C10 takes the execution path
 	ruleBCE(c, u, "C10.index", corePkgs, func(file string) bool {
-		return !strings.HasPrefix(file, "pkg/syntax/") && !strings.HasSuffix(file, "error_printer.go") && !strings.HasPrefix(file, "pkg/io/")
+		return !strings.HasPrefix(file, "pkg/syntax/") && !strings.HasSuffix(file, "error_printer.go")
 	})
 	R.min("C10.index", 50)
 	ruleAsserts(c, u, "C10.assert", []string{"pkg/common", "pkg/exec", "pkg/runtime", "pkg/value", "stdlib/file", "stdlib/json"}, "assert_allow.json")
@@ -875,6 +958,10 @@ func checkC10(c *Ctx) {
 							guarded = true
 						}
 					}
+					// or the test sits in a guard helper that received the value
+					if !guarded && establishedAt(u, f, useBlock, v, notNilPred, 2) {
+						guarded = true
+					}
 					if !guarded {
 						bad = u.pos(r.Pos())
 					}
@@ -907,55 +994,110 @@ func checkC10(c *Ctx) {
 	// ---- C10.exit
 	cg := u.callGraph()
 	roots := []*ssa.Function{u.ssaFunc("pkg/exec", "Interpreter.Execute"), u.ssaFunc("pkg/exec", "ExecVarInputText"), u.ssaFunc("pkg/exec", "ExecExpressionInputText")}
-	reach := map[*ssa.Function]bool{}
-	var stack []*ssa.Function
-	for _, r := range roots {
-		if r != nil {
-			stack = append(stack, r)
+	isRecoverCall := func(v ssa.Value) bool {
+		call, ok := v.(*ssa.Call)
+		if !ok {
+			return false
 		}
+		bi, ok := call.Call.Value.(*ssa.Builtin)
+		return ok && bi.Name() == "recover"
 	}
-	for len(stack) > 0 {
-		fn := stack[len(stack)-1]
-		stack = stack[:len(stack)-1]
-		if reach[fn] {
-			continue
+	// a recover handler: calls recover(), asserts the recovered value to error and stores it (into the
+	// named result of the deferring function, through a captured variable or a pointer parameter)
+	isHandler := func(fn *ssa.Function) bool {
+		if fn == nil || fn.Blocks == nil {
+			return false
 		}
-		reach[fn] = true
-		if n := cg.Nodes[fn]; n != nil {
-			for _, e := range n.Out {
-				if e.Callee.Func.Pkg != nil && strings.HasPrefix(e.Callee.Func.Pkg.Pkg.Path(), modPath) {
-					stack = append(stack, e.Callee.Func)
+		stores := false
+		for _, in := range instrsOf(fn) {
+			st, ok := in.(*ssa.Store)
+			if !ok || !isErrorType(st.Val.Type()) {
+				continue
+			}
+			if flowsFrom(st.Val, func(v ssa.Value) bool {
+				ta, ok := v.(*ssa.TypeAssert)
+				return ok && isErrorType(ta.AssertedType) && flowsFrom(ta.X, isRecoverCall)
+			}) {
+				stores = true
+			}
+		}
+		return stores
+	}
+	// boundary: a function that defers a recover handler - panics raised below it come back as errors
+	boundary := map[*ssa.Function]bool{}
+	for _, rel := range corePkgs {
+		for _, fn := range u.srcFuncs(rel) {
+			for _, in := range instrsOf(fn) {
+				d, ok := in.(*ssa.Defer)
+				if !ok {
+					continue
+				}
+				callee := d.Call.StaticCallee()
+				if mc, isMC := d.Call.Value.(*ssa.MakeClosure); isMC {
+					callee, _ = mc.Fn.(*ssa.Function)
+				}
+				if isHandler(callee) {
+					boundary[fn] = true
 				}
 			}
 		}
-		for _, a := range fn.AnonFuncs {
-			stack = append(stack, a)
-		}
 	}
+	walk := func(stopAtBoundary bool) map[*ssa.Function]bool {
+		reach := map[*ssa.Function]bool{}
+		var stack []*ssa.Function
+		for _, r := range roots {
+			if r != nil {
+				stack = append(stack, r)
+			}
+		}
+		for len(stack) > 0 {
+			fn := stack[len(stack)-1]
+			stack = stack[:len(stack)-1]
+			if reach[fn] {
+				continue
+			}
+			reach[fn] = true
+			if stopAtBoundary && boundary[fn] {
+				continue
+			}
+			if n := cg.Nodes[fn]; n != nil {
+				for _, e := range n.Out {
+					if e.Callee.Func.Pkg != nil && strings.HasPrefix(e.Callee.Func.Pkg.Pkg.Path(), modPath) {
+						stack = append(stack, e.Callee.Func)
+					}
+				}
+			}
+			for _, a := range fn.AnonFuncs {
+				stack = append(stack, a)
+			}
+		}
+		return reach
+	}
+	reach := walk(false)
+	unprotected := walk(true) // reachable without passing below a recover boundary
+	R.check(len(boundary) > 0, "C10.exit", "recover-boundary", "", fmt.Sprintf("%d function(s) defer a recover handler that turns a panicked error into a returned error", len(boundary)), "no function defers a recover handler: every parser panic crashes the process")
 	nReach, nExit := 0, 0
 	for fn := range reach {
 		if fn.Blocks == nil {
 			continue
 		}
 		nReach++
-		inParser := fn.Pkg != nil && strings.HasSuffix(fn.Pkg.Pkg.Path(), "pkg/syntax/zh") || (fn.Pkg != nil && strings.HasSuffix(fn.Pkg.Pkg.Path(), "pkg/syntax") && fn.Name() == "Parse$1")
 		for _, in := range instrsOf(fn) {
 			switch x := in.(type) {
 			case *ssa.Panic:
 				nExit++
 				key := u.fname(fn) + ":panic"
-				if inParser {
-					// error-typed panic, recovered by Parser.Parse
-					inner := strip(x.X)
+				inner := strip(x.X)
+				switch {
+				case flowsFrom(inner, isRecoverCall):
+					// the recover handler re-panics only recovered values that are not errors; every panic below
+					// the boundary carries an error (checked here) and Go runtime errors are errors: it cannot fire
+					R.hold("C10.exit", key+"@"+u.pos(x.Pos()), u.pos(x.Pos()), "re-panic of a recovered value that is not an error (no panic below the recover boundary carries a non-error)")
+				case !unprotected[fn]:
 					okT := types.Implements(inner.Type(), errorIface()) || isErrorType(inner.Type())
-					if fn.Name() == "Parse$1" {
-						// the recover handler re-panics only values that are not errors; with every parser
-						// panic carrying an error (checked here) and runtime errors being errors, it cannot fire
-						okT = true
-					}
-					R.check(okT, "C10.exit", key+"@"+u.pos(x.Pos()), u.pos(x.Pos()), "parser panic carries an error (recovered by Parser.Parse)", "the parser panics with a non-error value: Parser.Parse re-panics it and the process crashes")
-				} else {
-					R.viol("C10.exit", key+"@"+u.pos(x.Pos()), u.pos(x.Pos()), "panic on the execution path (nothing recovers it: interpreter.Execute has no recover)")
+					R.check(okT, "C10.exit", key+"@"+u.pos(x.Pos()), u.pos(x.Pos()), "panic carries an error and every call path from program execution passes a function deferring a recover handler", "a panic below the recover boundary carries a non-error value: the handler re-panics it and the process crashes")
+				default:
+					R.viol("C10.exit", key+"@"+u.pos(x.Pos()), u.pos(x.Pos()), "panic on the execution path (no function deferring a recover handler lies on every call path to it)")
 				}
 			case *ssa.Call:
 				n := u.callName(x)
@@ -999,4 +1141,52 @@ func nilSafeMethod(f *ssa.Function) bool {
 	}
 	_, isRet := b.Succs[0].Instrs[len(b.Succs[0].Instrs)-1].(*ssa.Return)
 	return isRet
+}
+
+// normExpr prints e with identifiers of local variables / parameters / receivers replaced by $<type>
+func normExpr(info *types.Info, e ast.Expr) string {
+	var cp func(e ast.Expr) ast.Expr
+	cp = func(e ast.Expr) ast.Expr {
+		switch x := e.(type) {
+		case *ast.Ident:
+			if v, ok := info.Uses[x].(*types.Var); ok && !v.IsField() && v.Parent() != nil && v.Parent() != v.Pkg().Scope() {
+				return &ast.Ident{Name: "$" + typeShort(v.Type())}
+			}
+			return x
+		case *ast.SelectorExpr:
+			return &ast.SelectorExpr{X: cp(x.X), Sel: x.Sel}
+		case *ast.IndexExpr:
+			return &ast.IndexExpr{X: cp(x.X), Index: cp(x.Index)}
+		case *ast.SliceExpr:
+			n := &ast.SliceExpr{X: cp(x.X), Slice3: x.Slice3}
+			if x.Low != nil {
+				n.Low = cp(x.Low)
+			}
+			if x.High != nil {
+				n.High = cp(x.High)
+			}
+			if x.Max != nil {
+				n.Max = cp(x.Max)
+			}
+			return n
+		case *ast.BinaryExpr:
+			return &ast.BinaryExpr{X: cp(x.X), Op: x.Op, Y: cp(x.Y)}
+		case *ast.UnaryExpr:
+			return &ast.UnaryExpr{Op: x.Op, X: cp(x.X)}
+		case *ast.ParenExpr:
+			return cp(x.X)
+		case *ast.StarExpr:
+			return &ast.StarExpr{X: cp(x.X)}
+		case *ast.CallExpr:
+			n := &ast.CallExpr{Fun: cp(x.Fun)}
+			for _, a := range x.Args {
+				n.Args = append(n.Args, cp(a))
+			}
+			return n
+		case *ast.TypeAssertExpr:
+			return &ast.TypeAssertExpr{X: cp(x.X), Type: x.Type}
+		}
+		return e
+	}
+	return types.ExprString(cp(e))
 }
